@@ -162,6 +162,8 @@ def decl_source(d, doc=False, derive_debug_enums=True, vis="pub "):
         val = bits_to_int(d["def"][0])
         sep = ":" if d.get("defsyn", "=") == ":" else " ="
         if d.get("defform", "lit") == "const":
+            if doc:
+                out.append("/// the default")
             out.append("%sconst DEFVAL: u%d = 0x%x;" % (vis, d["s"], val))
             args.append("default%s DEFVAL" % sep)
         else:
